@@ -5,7 +5,7 @@ import RdsProofs.C04Redeliver
 -/
 namespace RDS
 
-theorem step_of_group {cfg : Cfg} {s : State} {op : Op} {g : Group} (h : op.group? = some g) :
+theorem c04_step_of_group {cfg : Cfg} {s : State} {op : Op} {g : Group} (h : op.group? = some g) :
     step cfg s op = ((process cfg s g).1, (process cfg s g).2, true) := by
   cases op <;> simp only [Op.group?, reduceCtorEq] at h
   case parse g' => cases h; rfl
@@ -87,7 +87,7 @@ theorem chkC04_ok (tb : Tabs) (m : Mon) (s : State) (op : Op) (hl : Link m s) (h
   cases hg : op.group? with
   | none => simp [recOf, hg]
   | some g =>
-    have hstep := step_of_group (cfg := tb.cfg) (s := s) hg
+    have hstep := c04_step_of_group (cfg := tb.cfg) (s := s) hg
     have H := HOk_process tb.cfg s g hw.usedAfLen
     simp only [recOf, hg, hstep, hl.cbs]
     generalize process tb.cfg s g = P at H
@@ -165,7 +165,7 @@ theorem chkC04redeliver_ok (tb : Tabs) (m0 : Mon) (s0 : State) (op0 op : Op)
       by_cases hc : g = g0 ∧ (m0.step tb.cfg op0).ext = false
       · obtain ⟨rfl, he⟩ := hc
         have hext0 : s0.set.ext = false := by rw [← hl.ext, ← hext]; exact he
-        rw [step_of_group hg0, step_of_group hg]
+        rw [c04_step_of_group hg0, c04_step_of_group hg]
         obtain ⟨t, h1, h2⟩ := redeliver_core tb.cfg s0 g hext0 hw.usedAfLen
         simp only [h1, Obs.ofState_withTemp]
         have hs : ∀ o : Obs, o.sameData o = true := by intro o; simp [Obs.sameData]
